@@ -350,3 +350,49 @@ def run(ctx):
             ctx.count('helpers_judged')
             if o[0] != 'ok':
                 hv('well-formed-declaration-rejected', {'case': name, 'error': hplapi.exc_class(o)}, ('api:type-constructors',))
+
+        # small scope: every value tuple of length 1-3 over a pool of look-alike values, for each base type; every
+        # (min, max) pair and array length over boundary pools
+        import itertools
+        import math
+
+        pool = (True, False, 0, 1, 1.0, 0.0, 2, -1, 'a', '', '1', None)
+        right_kind = {'BOOL': lambda v: isinstance(v, bool),
+                      'NUMBER': lambda v: isinstance(v, (int, float)) and not isinstance(v, bool),
+                      'STRING': lambda v: isinstance(v, str)}
+        for tname, ok in right_kind.items():
+            for k in (1, 2, 3):
+                for values in itertools.product(pool, repeat=k):
+                    if tname == 'NUMBER' and any(isinstance(v, bool) for v in values):
+                        continue  # Python's bool is an int: whether a boolean is a NUMBER value is not stated
+                    expect_ok = all(ok(v) for v in values)
+                    o = hplapi.outcome(lambda: HT.EnumeratedType('e', DataType[tname], values=values))
+                    ctx.evaluation(f'enum|{tname}|{k}|{expect_ok}|{"".join(type(v).__name__[0] for v in values)}', True)
+                    ctx.count('helpers_judged')
+                    ctx.count('enum_declarations_judged')
+                    if expect_ok and o[0] != 'ok':
+                        hv('well-formed-declaration-rejected', {'case': f'{tname} enum {values!r}', 'error': hplapi.exc_class(o)},
+                           ('api:type-constructors',))
+                    elif not expect_ok and o[0] == 'ok':
+                        hv('ill-formed-declaration-accepted', {'case': f'{tname} enum {values!r}'}, ('api:type-constructors',))
+        bounds = (-math.inf, -1, 0, 0.5, 1, 255, math.inf)
+        for lo in bounds:
+            for hi in bounds:
+                o = hplapi.outcome(lambda: HT.RangedType('r', DataType.NUMBER, min_value=lo, max_value=hi))
+                ctx.evaluation(f'ranged|{lo}|{hi}', True)
+                ctx.count('helpers_judged')
+                if hi < lo and o[0] == 'ok':
+                    hv('ill-formed-declaration-accepted', {'case': f'ranged [{lo}, {hi}]'}, ('api:type-constructors',))
+                elif hi >= lo and o[0] != 'ok':
+                    hv('well-formed-declaration-rejected', {'case': f'ranged [{lo}, {hi}]', 'error': hplapi.exc_class(o)},
+                       ('api:type-constructors',))
+        for length in range(-4, 5):
+            for sub_ in (HT.UINT8, HT.STRINGS, HT.BOOLEANS):
+                o = hplapi.outcome(lambda: HT.ArrayType('a', subtype=sub_, length=length))
+                ctx.evaluation(f'array|{length}', True)
+                ctx.count('helpers_judged')
+                if length < -1 and o[0] == 'ok':
+                    hv('ill-formed-declaration-accepted', {'case': f'array length {length}'}, ('api:type-constructors',))
+                elif length >= -1 and o[0] != 'ok':
+                    hv('well-formed-declaration-rejected', {'case': f'array length {length}', 'error': hplapi.exc_class(o)},
+                       ('api:type-constructors',))
